@@ -4,3 +4,18 @@ claim("C01",
       "TLC and the CommunityModules Json reader; skav's projection of packed integers to base-4 digits; needletail parsing the FASTA files the driver writes as intended; outside the small scope the inputs are sampled, not enumerated.",
       "TLA+ spec + TLC model checking; TLC behaviours replayed into the code; TLC trace validation of recorded executions",
       "DESIGN.md section 4, C01")
+claim("C02",
+      "Design level: TLC applies every reverse-complement subset, record swap and case mask to every record set of a bounded universe (MC_Xform, k=5) and checks the declarative dictionary does not change, and that permuting samples permutes table columns. Implementation level: for generated inputs at all 30 k each transformation kind (revcomp subset, permutation, case mask, re-wrapping, gzip, sample permutation) is applied, the transformed file is built by SkaDict (both widths) and by the CLI, and TLC validates each recorded execution: the new input must be the stated transformation of the original and the recorded dictionary must equal the dictionary of the ORIGINAL input.",
+      "TLC, Json reader, needletail/flate2 reading the files the driver writes; transformations are sampled (their arguments are random), the small-scope theorem is exhaustive only within MC_Xform's bounds.",
+      "TLA+ spec + TLC model checking of the invariance theorem; TLC trace validation of recorded builds of transformed inputs",
+      "DESIGN.md section 4, C02")
+claim("C15",
+      "Complete enumeration: every cell of the IUPAC (4x256) and RC_IUPAC (256) tables and is_ambiguous / base_to_prob on the property's whole domain is dumped from the real code and checked by TLC against the set-algebra definitions of spec/Bases.tla (exhaustive: true); MC_Iupac explores all orders and multiplicities of observations for ordinary and self-reverse-complement k-mers and checks the algebraic laws.",
+      "TLC's evaluation of finite set algebra; skav dumps the tables verbatim. Weak fit for TLA+: a finite pure function, TLC acts as evaluator of an independent definition.",
+      "TLA+ definitions evaluated by TLC over the complete finite domain (trace validation of a table dump) + small TLC state machine",
+      "DESIGN.md section 4, C15")
+claim("C16",
+      "Design level: the data-independent shuffle network of rev_comp is model checked on position labels for every k-mer length and both widths (a proof for all k-mers of each length), masks for all 30 k, and rolling = from-scratch state in every reachable iterator state (k=7, records up to 9 bases). Implementation level: pack / rev_comp / masks / decode on every k-mer for k<=7 (thorough k<=9), structured and random k-mers for every k and width, SplitKmer with rolling read hashes and NtHashIterator on random sequences with N; each event validated by TLC against sequence-level definitions.",
+      "ntHash values are uninterpreted (only rolled = from-scratch and strand symmetry are decided); complete enumeration stops at k=9 (thorough), beyond it k-mers are structured + sampled; skav's digit projection.",
+      "TLA+ spec + TLC model checking of the shuffle network on label vectors; TLC trace validation of primitive calls",
+      "DESIGN.md section 4, C16")
